@@ -254,6 +254,16 @@ func locations(root interface{}, rootSch *yang.Entry, mk func() *gen.G) []locati
 		}
 	}
 	walk(reflect.ValueOf(root), rootSch, "")
+	eachAnnotationField(root, func(loc string, fld reflect.Value) {
+		for i := 0; i < fld.Len(); i++ {
+			if nt, ok := fld.Index(i).Interface().(*Note); ok && nt != nil {
+				add("annotation-object", fmt.Sprintf("%s[%d]", loc, i), func() { nt.Text += "!" })
+			}
+		}
+		if fld.Len() > 0 {
+			add("annotation-slice-element", loc+"[0]", func() { fld.Index(0).Set(reflect.ValueOf(ygot.Annotation(&Note{Text: "replaced"}))) })
+		}
+	})
 	return out
 }
 
@@ -316,7 +326,7 @@ func injectEmpties(v reflect.Value, r *simrt.Rng) int {
 
 // deepFingerprint is the model fingerprint (leaves, order, containers) of a tree.
 func deepFingerprint(s *treeState, t ygot.GoStruct) string {
-	return model.Walk(t, s.sch, "").Fingerprint()
+	return model.Walk(t, s.sch, "").Fingerprint() + "\n" + annotationFingerprint(t)
 }
 
 func c04Exec(c *Case, generate bool) (*Violation, *execStats) {
@@ -338,6 +348,11 @@ func c04Exec(c *Case, generate bool) (*Violation, *execStats) {
 				st.Probes["tree_with_empty_non_nil_lists"]++
 			}
 		}
+		if c.Seed%3 != 0 {
+			if annotate(s.root, &re, "n") > 0 {
+				st.Probes["tree_with_annotations"]++
+			}
+		}
 		if p := callSUT(func() { cp, err = ygot.DeepCopy(s.root) }); p != nil {
 			return violation("C04", "panic", "C04:panic:deepcopy", "DeepCopy panicked: %v\n%s", p.v, trimStack(p.stack)), st
 		}
@@ -346,6 +361,9 @@ func c04Exec(c *Case, generate bool) (*Violation, *execStats) {
 		}
 		if d := model.DiffFlat(s.model().Flat(), model.Walk(cp, s.sch, "").Flat(), 5); len(d) > 0 {
 			return violation("C04", "copy-differs", "C04:deepcopy-differs", "DeepCopy(s) is not equal to s: %v", d), st
+		}
+		if a, b := annotationFingerprint(s.root), annotationFingerprint(cp); a != b {
+			return violation("C04", "copy-differs", "C04:deepcopy-annotations", "DeepCopy(s) does not carry the annotations of s:\n  s:    %s\n  copy: %s", clip(a, 300), clip(b, 300)), st
 		}
 		ms, mc := s.model(), model.Walk(cp, s.sch, "")
 		for lp := range ms.Ordered {
@@ -373,6 +391,12 @@ func c04Exec(c *Case, generate bool) (*Violation, *execStats) {
 			mopts = append(mopts, &ygot.MergeEmptyMaps{})
 		case "merge-overwrite":
 			mopts = append(mopts, &ygot.MergeOverwriteExistingFields{})
+		}
+		if c.Seed%3 != 0 {
+			// both inputs carry annotations of their own, some on the same nodes
+			if annotate(a, &re, "a")+annotate(b, &re, "b") > 0 {
+				st.Probes["tree_with_annotations"]++
+			}
 		}
 		if c.Target == "merge-emptymaps" || c.Seed%2 == 1 {
 			if injectEmpties(reflect.ValueOf(a), &re)+injectEmpties(reflect.ValueOf(b), &re) > 0 {
